@@ -21,6 +21,7 @@ type half struct {
 	closed bool  // writer side closed: reads drain then EOF
 	rerr   error // reader side closed: writes fail
 	failW  error // injected: writes fail with this error from now on
+	stallW bool  // injected: writes block (the reader has stopped draining) until the pipe is closed
 }
 
 func newHalf() *half {
@@ -32,6 +33,12 @@ func newHalf() *half {
 func (h *half) write(p []byte) (int, error) {
 	h.mu.Lock()
 	defer h.mu.Unlock()
+	if h.failW != nil {
+		return 0, h.failW
+	}
+	for h.stallW && !h.closed && h.rerr == nil && h.failW == nil {
+		h.cond.Wait()
+	}
 	if h.failW != nil {
 		return 0, h.failW
 	}
@@ -107,11 +114,24 @@ func (e *End) Close() error {
 	return nil
 }
 
+// StallWrites makes every later Write on this end block, as when the peer has stopped reading and the
+// pipe is full; a blocked Write returns io.ErrClosedPipe once either end is closed.
+func (e *End) StallWrites() {
+	e.w.mu.Lock()
+	e.w.stallW = true
+	e.w.mu.Unlock()
+}
+
+// CloseWrite closes only the outgoing direction of this end (the peer reads EOF after draining) and keeps
+// reading: the two directions of a stdio-like link fail independently.
+func (e *End) CloseWrite() { e.w.closeWrite() }
+
 // FailWrites makes every later Write on this end fail with err (the write side
 // is "broken" while reads keep working).
 func (e *End) FailWrites(err error) {
 	e.w.mu.Lock()
 	e.w.failW = err
+	e.w.cond.Broadcast()
 	e.w.mu.Unlock()
 }
 
